@@ -456,7 +456,7 @@ pub fn run(tier: &str) -> i32 {
                     continue;
                 }
                 let target_fmt = if keeps_format { hist_fmt } else { pf };
-                for (chunk, room, finish) in [(usize::MAX, 100_000usize, false), (1, 1, false), (usize::MAX, 100_000, true)] {
+                for (chunk, room, finish) in [(usize::MAX, 100_000usize, false), (1, 1, false), (usize::MAX, 100_000, true), (usize::MAX, 700, false), (1000, 33_000, false)] {
                     if p.bytes.len() > 5000 && chunk == 1 {
                         continue;
                     }
